@@ -1271,6 +1271,146 @@ theorem eff_replaceS {s s' : St} (h : Inv s) {v wn wr_ tmp : Nat} (hv : v < s.n)
         · subst hut; rw [E6.self, S.abs, h0]
         · rw [E6.other u hut, E5.other u hu, E4.other u hut, E3.other u hut]
 
+theorem replaceAux_none {n : List Nat} {r : List Byte} {h : List Nat} (e : strstrL h n = none) (fuel : Nat) :
+    Spec.replaceAux n r fuel h = h.map some := by
+  cases fuel with
+  | zero => rfl
+  | succ f => simp only [Spec.replaceAux, e]
+
+theorem eff_replaceLoop_val {hh nn : List Nat} {wr_ tmp : Nat} (hwt : wr_ ≠ tmp) :
+    ∀ (fuel : Nat) {s s' : St} (pos m : Nat), Inv s → tmp < s.n → pos ≤ m →
+      strstrL (hh.drop pos) nn = some (m - pos) →
+      replaceLoop hh nn (hh.map some) wr_ tmp fuel s pos m = some s' →
+      Eff s s' tmp (absVar s tmp ++ Spec.replaceAux nn (absVar s wr_) fuel (hh.drop pos))
+  | 0, _, _, _, _, _, _, _, _, e => by simp [replaceLoop] at e
+  | fuel + 1, s, s', pos, m, h, ht, hpm, hs, e => by
+    simp only [replaceLoop, Option.bind_eq_bind, Option.bind_eq_some_iff] at e
+    obtain ⟨s1, h1, s2, h2, e⟩ := e
+    have E1 := eff_appendP h ht h1
+    have ht1 : tmp < s1.n := by rw [E1.n]; exact ht
+    have E2 := eff_appendS E1.inv ht1 h2
+    have ht2 : tmp < s2.n := by rw [E2.n]; exact ht1
+    have hR1 : absVar s1 wr_ = absVar s wr_ := E1.other wr_ hwt
+    have hR2 : absVar s2 wr_ = absVar s wr_ := by rw [E2.other wr_ hwt, hR1]
+    have hdrop : (hh.drop pos).drop (m - pos + nn.length) = hh.drop (m + nn.length) := by
+      rw [List.drop_drop]; congr 1; omega
+    have hacc : absVar s2 tmp = absVar s tmp ++ ((hh.drop pos).take (m - pos)).map some ++ absVar s wr_ := by
+      rw [E2.self, E1.self, hR1, List.map_take, List.map_drop]
+    simp only [Spec.replaceAux, hs, hdrop]
+    cases hf : strstrL (List.drop (m + nn.length) hh) nn with
+    | none =>
+      simp only [hf] at e
+      have E3 := eff_appendP E2.inv ht2 e
+      refine ((E1.trans E2).trans E3).val_eq ?_
+      rw [hacc, replaceAux_none hf]
+      have : List.take ((List.map some hh).length - (m + nn.length)) (List.drop (m + nn.length) (List.map some hh))
+          = (hh.drop (m + nn.length)).map some := by
+        rw [List.take_of_length_le (by simp only [List.length_drop, List.length_map]; omega), List.map_drop]
+      rw [this]
+      simp only [List.append_assoc]
+    | some k =>
+      simp only [hf] at e
+      have E3 := eff_replaceLoop_val hwt fuel (m + nn.length) (m + nn.length + k) E2.inv ht2 (by omega)
+        (by rw [hf]; congr 1; omega) e
+      refine ((E1.trans E2).trans E3).val_eq ?_
+      rw [hacc, hR2]
+      simp only [List.append_assoc]
+
+theorem eff_replaceS_val {s s' : St} (h : Inv s) {v wn wr_ tmp : Nat} (hv : v < s.n) (hwn : wn < s.n)
+    (ht : tmp < s.n) (hne : v ≠ tmp) (hwt : wr_ ≠ tmp) (h0 : absVar s tmp = [])
+    {c nd : List Nat} (hc : allSome (absVar s v) = some c) (hn : allSome (absVar s wn) = some nd)
+    (hzc : 0 ∉ c) (hzn : 0 ∉ nd) (e : replaceS s v wn wr_ tmp = some s') :
+    Eff s s' v (Spec.replaceAll nd (absVar s wr_) c) := by
+  obtain ⟨dn, hdn⟩ := desc_some h wn
+  have hlenn := desc_len h hdn
+  have hndl : nd.length = dn.len := by rw [hlenn, allSome_eq hn, List.length_map]
+  simp only [replaceS, hdn, Option.bind_eq_bind, Option.bind_some] at e
+  by_cases l0 : dn.len = 0
+  · simp only [l0, if_true, Option.pure_def, Option.some.injEq] at e
+    subst e
+    have : nd = [] := List.eq_nil_of_length_eq_zero (by omega)
+    refine (Eff.refl h v).val_eq ?_
+    simp only [Spec.replaceAll, this, if_true]
+    exact allSome_eq hc
+  · have hnd : nd ≠ [] := by intro x; subst x; simp at hndl; omega
+    simp only [l0, if_false, Option.bind_eq_some_iff] at e
+    obtain ⟨s1, h1, s2, h2, hh, h3, nn, h4, e⟩ := e
+    obtain ⟨E1, t1⟩ := eff_cview h hv h1
+    have S1 := E1.silent
+    obtain ⟨E2, t2⟩ := eff_cview S1.inv (by rw [S1.n]; exact hwn) h2
+    have S2 := E2.silent
+    have S := S1.trans S2
+    -- the C strings the two `strstr` arguments denote
+    have tv : termByte s2 v = some (some 0) := by
+      by_cases cvw : v = wn
+      · subst cvw; exact t2
+      · -- `needle` is another object: taking its view does not move `*this`
+        cases hloc : s2.vars v with
+        | empty => simp [termByte, desc_empty hloc, memOf]
+        | blk b =>
+          obtain ⟨blk, hbk⟩ := S2.inv.live v b hloc
+          simp only [termByte, desc_blk hloc hbk, memOf, hbk, Option.bind_eq_bind, Option.bind_some, Option.map_some,
+            Nat.zero_add]
+          exact (S2.inv.wf b blk hbk).2.2
+        | foreign r off len =>
+          -- still the foreign descriptor it had after its own view
+          have hv1 : s1.vars v = .foreign r off len := by
+            obtain ⟨d1, hd1⟩ := desc_some S1.inv wn
+            simp only [cview, hd1, Option.bind_eq_bind, Option.bind_some, Option.bind_eq_some_iff] at h2
+            obtain ⟨t, _, h2⟩ := h2
+            by_cases t0 : t = 0
+            · simp only [t0, ne_eq, not_true_eq_false, if_false, Option.pure_def, Option.some.injEq] at h2
+              subst h2; exact hloc
+            · simp only [ne_eq, t0, not_false_eq_true, if_true, detach, hd1, Option.bind_eq_bind, Option.bind_some] at h2
+              split at h2
+              · simp only [Option.bind_eq_some_iff] at h2
+                obtain ⟨_, _, _, _, h2⟩ := h2
+                rw [← (writeOwn_fields h2).2.2]; exact hloc
+              · simp only [Option.bind_eq_some_iff, Option.pure_def, Option.some.injEq] at h2
+                obtain ⟨_, _, _, _, _, _, rfl⟩ := h2
+                simp only [allocSet, setEmpty, setVar, upd_other _ _ _ _ cvw, (release_fields s1 wn).2.2.2] at hloc
+                exact hloc
+          have := t1
+          simp only [termByte, desc_foreign hv1, memOf, Option.bind_eq_bind, Option.bind_some] at this
+          simp only [termByte, desc_foreign hloc, memOf, Option.bind_eq_bind, Option.bind_some, S2.regs]
+          exact this
+    have ehh := cstrVar_eq S2.inv tv (by rw [S.abs]; exact hc) (nulFree_of hzc)
+    have enn := cstrVar_eq S2.inv t2 (by rw [S.abs]; exact hn) (nulFree_of hzn)
+    rw [ehh] at h3; rw [enn] at h4
+    injection h3 with h3; injection h4 with h4
+    subst h3; subst h4
+    cases hf : strstrL c nd with
+    | none =>
+      simp only [hf, Option.pure_def, Option.some.injEq] at e
+      subst e
+      refine (S.eff v).val_eq ?_
+      simp only [Spec.replaceAll, hnd, if_false, Spec.replaceAux, hf]
+      exact allSome_eq hc
+    | some m =>
+      simp only [hf, Option.bind_eq_some_iff, Option.pure_def, Option.some.injEq] at e
+      obtain ⟨dv, _, dr, _, cc, hcc, s3, h3, s4, h4, s5, h5, e⟩ := e
+      subst e
+      have hcc' : cc = c.map some := by
+        rw [content_eq S2.inv v, S.abs] at hcc
+        injection hcc with hcc
+        rw [← hcc, allSome_eq hc]
+      subst hcc'
+      have ht2 : tmp < s2.n := by rw [S.n]; exact ht
+      have E3 := eff_ctorCap S.inv ht2 h3
+      have ht3 : tmp < s3.n := by rw [E3.n]; exact ht2
+      have E4 := eff_replaceLoop_val hwt _ 0 m E3.inv ht3 (Nat.zero_le _) (by simpa using hf) h4
+      have hv4 : v < s4.n := by rw [E4.n, E3.n, S.n]; exact hv
+      have E5 := eff_assign E4.inv hv4 h5
+      have ht5 : tmp < s5.n := by rw [E5.n, E4.n]; exact ht3
+      have E6 := eff_setEmpty E5.inv ht5
+      refine S.andThen ⟨E6.inv, by rw [E6.n, E5.n, E4.n, E3.n], by rw [E6.regs, E5.regs, E4.regs, E3.regs], ?_, ?_⟩
+      · rw [E6.other v hne, E5.self, E4.self, E3.self, E3.other wr_ hwt, S.abs]
+        simp only [Spec.replaceAll, hnd, if_false, List.nil_append, List.drop_zero]
+      · intro u hu
+        by_cases hut : u = tmp
+        · subst hut; rw [E6.self, S.abs, h0]
+        · rw [E6.other u hut, E5.other u hu, E4.other u hut, E3.other u hut]
+
 /-! ### printf -/
 
 theorem wr_get_last {m : List Byte} {off : Nat} {d : List Byte} {x : Byte} {m' : List Byte}
